@@ -168,39 +168,69 @@ def rule_c(ctx):
 
 
 def _fold_integrate(f):
-    """Fold Geometry.integrate for a geometry with scalar voxel volume VV and data of shape (S_0..S_{d-1}, TIME, COMP), given as array and
-    as Image: (True, "") when the result is d sums over axis 0 of DATA * VV * prod(N_k / S_k); (False, why) when the result depends on
-    the payload extents or the total size (named contradiction); None otherwise (not decided here)."""
-    from ..fold import Folder, Obj, Opaque, Raised, Refuse
+    """Fold Geometry.integrate path-wise for a geometry with scalar voxel volume VV and data of shape (S_0..S_{d-1}, TIME, COMP), given as
+    array and as Image: (True, "") when on every path the result is d sums over axis 0 of DATA * VV * prod(N_k / S_k) (with S = N on a
+    path that assumed the data to have the geometry's resolution); (False, why) when some path returns an integral that depends on the
+    payload extents or the total size, uses the cache of an earlier call, or does not contain the geometry's voxel volume at all (named
+    contradictions); None otherwise (not decided here)."""
+    from ..fold import Folder, Obj, Opaque, Raised, Refuse, Sym, fold_paths
     from ..terms import nf
 
+    def labels(v):
+        return [getattr(x, "label", None) for x in v] if isinstance(v, (list, tuple)) else None
+
     for dim in (1, 2, 3):
-        shape = tuple([Opaque("int", f"S{k}") for k in range(dim)] + [Opaque("int", "TIME"), Opaque("int", "COMP")])
         for kind in ("array", "image"):
-            arr = Opaque("ndarray", "DATA", {"shape": shape, "size": Opaque("int", "SIZE"), "ndim": dim + 2})
-            data = arr if kind == "array" else Obj("img", {"__class__": "Image", "img": arr, "shape": shape})
-            so = Obj("self", {"__class__": "Geometry", "space_dim": dim, "num_voxels": [Opaque("int", f"N{k}") for k in range(dim)],
-                              "voxel_volume": Opaque("float", "VV"), "cached_voxel_volume": Opaque("float", "CVV")})
-            fo = Folder(symbolic=True)
-            fo.func_stack.append(f.node)
-            fo.fold_all_methods = True
+            def run(decide, dim=dim, kind=kind):
+                shape = tuple([Opaque("int", f"S{k}") for k in range(dim)] + [Opaque("int", "TIME"), Opaque("int", "COMP")])
+                arr = Opaque("ndarray", "DATA", {"shape": shape, "size": Opaque("int", "SIZE"), "ndim": dim + 2})
+                data = arr if kind == "array" else Obj("img", {"__class__": "Image", "img": arr, "shape": shape})
+                so = Obj("self", {"__class__": "Geometry", "space_dim": dim, "num_voxels": [Opaque("int", f"N{k}") for k in range(dim)],
+                                  "dimensions": [Opaque("float", f"D{k}") for k in range(dim)],
+                                  "voxel_volume": Opaque("float", "VV"), "cached_voxel_volume": Opaque("float", "CVV")})
+                fo = Folder(symbolic=True)
+                fo.decider = decide
+                fo.func_stack.append(f.node)
+                fo.fold_all_methods = True
+                return fo.call(f.node, [so, data])
             try:
-                r = fo.call(f.node, [so, data])
-            except (Refuse, Raised):
+                paths = fold_paths(run, max_paths=8)
+            except Refuse:
                 return None
-            t = nf(r)
-            inner = "(DATA * VV * np.prod([" + ", ".join(f"(N{k} / S{k})" for k in range(dim)) + "]))"
-            want = inner
-            for _ in range(dim):
-                want = f"np.sum({want}, axis=0)"
-            if t == want:
-                continue
-            for tok, what in (("SIZE", "the total number of entries of the data"), ("TIME", "the number of time steps"), ("COMP", "the number of components")):
-                if tok in t:
-                    return (False, f"{kind} input, {dim}d: the integral is {t[:140]}, which depends on {what}: every time step / component is scaled by the payload extents")
-            if "CVV" in t:
-                return (False, f"{kind} input, {dim}d: the integral uses the cached voxel volume of an earlier call: {t[:140]}")
-            return None
+            for log, r, err in paths:
+                if err is not None:
+                    if isinstance(err, Raised):
+                        continue  # a path that rejects its input
+                    return None
+                # a path that assumed `spatial data shape == num_voxels` is judged with S = N
+                native = False
+                for cond, b in log:
+                    if isinstance(cond, Sym) and cond.fn in ("==", "!=") and len(cond.args) == 2:
+                        la, lb = labels(cond.args[0]), labels(cond.args[1])
+                        if la and lb and {tuple(la), tuple(lb)} == {tuple(f"S{k}" for k in range(dim)), tuple(f"N{k}" for k in range(dim))} and b == (cond.fn == "=="):
+                            native = True
+                t = nf(r)
+                where = f"{kind} input, {dim}d" + (", data at the geometry's resolution" if native else (", path " + "/".join("T" if b else "F" for _, b in log) if log else ""))
+                wants = []
+                for inner in ["(DATA * VV * np.prod([" + ", ".join(f"(N{k} / S{k})" for k in range(dim)) + "]))"] + (["(DATA * VV)"] if native else []):
+                    w = inner
+                    for _ in range(dim):
+                        w = f"np.sum({w}, axis=0)"
+                    wants.append(w)
+                if native:
+                    for k in range(dim):
+                        t = t.replace(f"S{k}", f"N{k}")
+                        wants = [w.replace(f"S{k}", f"N{k}") for w in wants]
+                if t in wants:
+                    continue
+                for tok, what in (("SIZE", "the total number of entries of the data"), ("TIME", "the number of time steps"), ("COMP", "the number of components")):
+                    if tok in t:
+                        return (False, f"{where}: the integral is {t[:140]}, which depends on {what}: every time step / component is scaled by the payload extents")
+                if "CVV" in t:
+                    return (False, f"{where}: the integral uses the cached voxel volume of an earlier call: {t[:140]}")
+                if "VV" not in t and "DATA" in t:
+                    return (False, f"{where}: the integral is {t[:140]}, which does not contain the geometry's voxel volume: depth / porosity folded into it by the weighted geometries are dropped")
+                return None
     return (True, "")
 
 
@@ -335,7 +365,32 @@ def rule_f(ctx):
     ctx.floor(R, 1)
 
 
+def _integrate_uses_resize(m):
+    """Does the call closure of Geometry.integrate (methods of the Geometry family) construct / call darsia.Resize?"""
+    seen, todo = set(), [m.func(MOD, "Geometry.integrate")]
+    while todo:
+        f = todo.pop()
+        if f in seen:
+            continue
+        seen.add(f)
+        for c in ast.walk(f.node):
+            if isinstance(c, ast.Call):
+                t = m.resolve_call(c, f)
+                if t is None:
+                    continue
+                if getattr(t, "name", "") in ("Resize", "resize") or (getattr(t, "cls", None) is not None and t.cls.name == "Resize"):
+                    return True
+                if hasattr(t, "node") and getattr(t, "cls", None) is not None and t.module.name == MOD:
+                    todo.append(t)
+    return False
+
+
 def run(ctx):
+    if _integrate_uses_resize(ctx.model):
+        from . import c11
+        from .common import shared
+
+        shared(ctx, "C03.c", c11.rule_i, why="integrate resizes the voxel volumes through darsia.Resize and relies on its area interpolation to conserve the weighted sum")
     rule_a(ctx)
     rule_b(ctx)
     rule_c(ctx)
